@@ -280,6 +280,28 @@ def rule_probe(cx, rid):
         texts.append(o1.value)
     diff = next((f"{a!r} vs {b!r}" for a, b in zip(texts[0].split(chr(10)), texts[1].split(chr(10))) if a != b), None)
     r.check(texts[0] == texts[1], "emit/independent-of-set-iteration-order", (em, em.func("emit")), f"the firmware differs when the Program's sets are iterated in another order ({diff}): output would follow PYTHONHASHSEED")
+    # interleaving: a sketch's text does not depend on which scripts were transpiled before it in the same process.  The
+    # class-level attributes of the emitter's own classes are evaluated once per process (as at import) and shared by all
+    # later evaluations, so anything a library-heavy program leaves behind in them shows in the next program's text
+    led = [cls["LedDecl"](name="led", pin=13), cls["LedOn"](name="led")]
+    heavy = [cls["ServoDecl"](name="s1", pin=9), cls["LCDDecl"](name="l0", cols=16, rows=2, interface="i2c", i2c_addr=39),
+             cls["LCDDecl"](name="l1", cols=16, rows=2, interface="parallel", rs=12, en=11, d4=5, d5=4, d6=3, d7=2), l2.decl_node("Ultrasonic", name="u"), l2.decl_node("Button", name="b")]
+
+    def prog_of(setup):
+        return cls["Program"](setup_body=list(setup), loop_body=[], target_port=None, global_decls=[], helpers=set(), functions=[], ultrasonic_measurements=set())
+
+    for k_ in [k_ for k_ in dl.Interp._SYNTH if k_[0] == em.rel]:
+        del dl.Interp._SYNTH[k_]          # a fresh import of the emitter
+    try:
+        alone = pe._interp(em).call(em.func("emit"), [prog_of(led)])
+        pe._interp(em).call(em.func("emit"), [prog_of(heavy)])
+        after = pe._interp(em).call(em.func("emit"), [prog_of(led)])
+    except dl.Unsupported as e:
+        raise AnalysisError(f"emit() left the evaluable subset: {e}")
+    if alone.kind != "return" or after.kind != "return":
+        raise AnalysisError(f"emit() raises on the interleaving probe: {alone!r} / {after!r}")
+    diff = next((f"{b!r} (alone: {a!r})" for a, b in zip(alone.value.split(chr(10)) + [""] * 400, after.value.split(chr(10)) + [""] * 400) if a != b), None)
+    r.check(alone.value == after.value, "emit/independent-of-earlier-programs", (em, em.func("emit")), f"an LED-only sketch emitted after a servo/LCD sketch differs from the same sketch emitted first: {diff} - state survives between emit() calls")
     # structural twin: no store into a node attribute anywhere in the emitter
     ir_field_names = {f[0] for fl in fields.values() for f in fl}
     n_stores = 0
@@ -318,6 +340,29 @@ def rule_global_state(cx, rid, mods, floor=40, only=None):
                     kind = "stateful-object"
             if kind:
                 mutable_globals[name] = kind
+        # class-level mutable attributes of plain (non-dataclass) classes are module-level state under another name
+        for cname_, cnode_ in m.classes.items():
+            is_dc = any((dotted(d_.func if isinstance(d_, ast.Call) else d_) or "").split(".")[-1] == "dataclass" for d_ in cnode_.decorator_list)
+            for st_ in cnode_.body:
+                val_ = st_.value if isinstance(st_, (ast.Assign, ast.AnnAssign)) else None
+                tgt_ = (st_.targets[0] if isinstance(st_, ast.Assign) else st_.target) if val_ is not None else None
+                if val_ is None or not isinstance(tgt_, ast.Name):
+                    continue
+                mutable_ = isinstance(val_, (ast.Dict, ast.List, ast.Set, ast.ListComp, ast.DictComp, ast.SetComp)) or (isinstance(val_, ast.Call) and (call_name(val_) or "") in ("dict", "list", "set", "collections.OrderedDict", "OrderedDict", "defaultdict", "collections.defaultdict", "deque", "collections.deque"))
+                if not mutable_ or is_dc:
+                    continue
+                # a table that no method of the class (and no function of the module) mutates is a constant
+                mutated_ = False
+                for q_, fn_ in m.funcs.items():
+                    for c_ in ast.walk(fn_):
+                        if isinstance(c_, ast.Call) and isinstance(c_.func, ast.Attribute) and c_.func.attr in MUTATORS and isinstance(c_.func.value, ast.Attribute) and c_.func.value.attr == tgt_.id:
+                            mutated_ = True
+                        if isinstance(c_, (ast.Assign, ast.AugAssign, ast.Delete)):
+                            for t_ in (c_.targets if isinstance(c_, (ast.Assign, ast.Delete)) else [c_.target]):
+                                if isinstance(t_, ast.Subscript) and isinstance(t_.value, ast.Attribute) and t_.value.attr == tgt_.id:
+                                    mutated_ = True
+                if only is None or mutated_:
+                    r.check(not mutated_, f"{m.rel.split('/')[-1]}:{cname_}.{tgt_.id}/class-level-mutable-attribute", (m, st_), f"`{cname_}.{tgt_.id}` is one container shared by every instance of {cname_} and it is mutated through instances: whatever one transpile() puts into it is still there for the next script in the process")
         scope = None
         if only is not None:
             # the named functions and everything they (transitively) call inside this module
